@@ -9,6 +9,10 @@ claimed = {
          "bufio.Scanner, strings.*, unicode.*, strconv.Atoi contracts assumed; Handler methods assumed total; recursion through $include assumed bounded by the proved depth-cap postcondition"),
  "C13": ("DESIGN.md §4 C13", "condition-stack invariant (inner active ==> outer active) and effect-iff-active postconditions of Parser.do/doBind/doSet over ghost call records of the Handler",
          "Handler interface contract assumed (ghost call log); strings.* assumed; known finding: nested $if/$else inside an inactive block (recorded, fixture-locked)"),
+ "C07": ("DESIGN.md §4 C07", "lineHistory representation invariant (0 <= pos <= len(items)) for every object, exact effect of Save/Undo/Redo/Reset/Revert on the current line's undo history (same object, truncation, append, older-or-equal position, redo reverses undo), proved for all states",
+         "Source interface contract assumed; which commands call Save/SkipSave is the main loop's business (A-LOOP); 2 known findings recorded (redo of unsaved text; Save drops the restored state)"),
+ "C16": ("DESIGN.md §4 C16", "kill commands proved against killyank: the line lost exactly d runes starting at the cursor, they are the newest kill, the rest is untouched (P1) and the cursor sits where the range collapsed (P2); yank / vi-put-before insert exactly the kill buffer at the cursor; lemma kill_yank_restores closes the loop; Line.Cut/Insert, Selection.Pos/Text/Cut, Buffers.Write/Active carry it",
+         "emacs kills under the hypothesis 'no vi visual selection'; counts other than 1 not covered for vi-delete-char/put (NUL padding observed); word kills (kill-word etc.) only for panic-freedom; Line.Len == len trusted"),
 }
 not_applicable = {
  "C04": "needs a VT100 cell-grid interpreter of the emitted byte stream as oracle; contracts on the repository's functions cannot state what a terminal shows (DESIGN.md §4 C04)",
@@ -19,14 +23,12 @@ pending = {
  "C02": "not yet claimed: needs the dispatcher contracts (DESIGN.md §7 step 3)",
  "C03": "not yet claimed: needs the dispatcher contracts (DESIGN.md §7 step 3)",
  "C05": "not yet claimed: needs the ghost input stream layer (DESIGN.md §7 step 3)",
- "C07": "not yet claimed: undo history contracts not yet written",
  "C08": "not yet claimed: history sources contracts not yet written",
  "C09": "not yet claimed: history navigation contracts not yet written",
  "C10": "not yet claimed: assumed-library layer not reached yet (DESIGN.md §4 C10)",
  "C11": "not yet claimed: ghost termios / defers on the panic edge not yet built",
  "C14": "not yet claimed: completion insert contracts not yet written",
  "C15": "not yet claimed: completion grid contracts not yet written",
- "C16": "not yet claimed: kill/yank contracts not yet written",
  "C17": "not yet claimed: vi operator contracts not yet written",
  "C18": "not yet claimed: macro engine contracts not yet written",
  "C19": "not yet claimed: escape/unescape lemmas not yet written",
